@@ -64,6 +64,7 @@ def reference_3d(logm, k, logf, w, lo, hi, valid=None, conf=None):
 
 
 BIG_DONE = []
+MONO_DONE = []
 
 
 def run(ctx):
@@ -158,16 +159,21 @@ def run(ctx):
         # cube packages: one more band is a monochromatic one, given to the fitter as a wavelength (a tabulated one, in nm / Angstrom /
         # mm) instead of a filter name - the cube slice at that wavelength
         filt_arg = [f.name for f in filters]
-        if style == 'v2' and mode == '2d' and tries % 8 == 2:
-            jm = int(rng.integers(n_w))
-            if np.all(truth.flux[others][:, 0, jm] > 0):
+        mono = False
+        if style == 'v2' and mode == '2d' and (tries % 8 == 2 or not MONO_DONE):
+            # (a tabulated wavelength at which every model emits and |k| <= 5 - the bound used for the other bands, beyond which the
+            #  photometry under- or overflows; the class is tried on every 2-D cube package until one pipeline has run with it)
+            kall_ = O.ext_pattern(lw, lc, np.asarray(truth.wav, float))
+            cand_ = [j_ for j_ in range(n_w) if np.all(truth.flux[others][:, 0, j_] > 0) and abs(float(kall_[j_])) <= 5]
+            if cand_:
+                jm = int(cand_[int(rng.integers(len(cand_)))])
+                mono = True
                 wm = float(truth.wav[jm])
                 conv = np.concatenate([conv, truth.flux[:, :, jm][:, :, None]], axis=2)
                 k = np.concatenate([k, O.ext_pattern(lw, lc, np.array([wm]))])
                 cen = np.concatenate([cen, [wm]])
                 filt_arg.append((wm * u.micron).to([u.nm, u.AA, u.mm][(tries // 8) % 3]))
                 nf += 1
-                ctx.regime('cube:monochromatic-band-given-as-wavelength-not-in-micron')
         c09.CUR.update(params={'cols': list(params), 'rows': {names[m]: {c: float(params[c][m]) for c in params} for m in range(n_m)}}, perm=order)
         wit0 = dict(mode=mode, style=style, n_models=n_m, n_filters=nf, table_order=order)
         try:
@@ -294,6 +300,9 @@ def run(ctx):
             ctx.rmdir(d)
             continue
         ctx.event('pipeline:run')
+        if mono:
+            MONO_DONE.append(True)
+            ctx.regime('cube:monochromatic-band-given-as-wavelength-not-in-micron')
         if big and any(p_['m0'] >= n_m - 250 for p_ in plants):          # (counted only when a plant among the last models was kept)
             BIG_DONE.append(True)
             ctx.regime('package:over-a-thousand-models')
